@@ -905,6 +905,8 @@ func (s *session) startReadAndHandle() {
 		}) {
 			// complete and unlock the call bound by bindReply, if any
 			ctx.handleReply()
+			// a call that cannot be handled is refused, not dropped
+			ctx.refuseCall()
 			s.peer.putContext(ctx, true)
 		}
 	}
